@@ -103,20 +103,22 @@ def tn93Stat (m : M4) : Stat :=
     let prodPurs := tnFreq m 2 * tnFreq m 3
     let freqPyrs := tnFreq m 1 + tnFreq m 0
     let prodPyrs := tnFreq m 1 * tnFreq m 0
-    -- every zero denominator below comes with a zero numerator: numpy gives 0/0 = nan,
-    -- every comparison with nan is False, so `dist` is nan
-    if freqPurs = 0 ∨ freqPyrs = 0 ∨ prodPurs = 0 ∨ prodPyrs = 0 then .nan
-    else
-      let purD := purTs m / tot
-      let pyrD := pyrTs m / tot
-      let tvD := tvSum m / tot
-      let c1 := 2 * prodPurs / freqPurs
-      let c2 := 2 * prodPyrs / freqPyrs
-      let c3 := 2 * (freqPurs * freqPyrs - (prodPurs * freqPyrs / freqPurs) - (prodPyrs * freqPurs / freqPyrs))
-      let t1 := 1 - purD / c1 - tvD / (2 * freqPurs)
-      let t2 := 1 - pyrD / c2 - tvD / (2 * freqPyrs)
-      let t3 := 1 - tvD / (2 * freqPurs * freqPyrs)
-      if t1 ≤ 0 ∨ t2 ≤ 0 ∨ t3 ≤ 0 then .invalid else .tn93 tot p c1 c2 c3 t1 t2 t3
+    -- every zero denominator below comes with a zero numerator, so numpy yields 0/0 = nan (never inf):
+    -- term1 is nan iff prodPurs = 0, term2 iff prodPyrs = 0, term3 iff freqPurs * freqPyrs = 0.
+    -- `term <= 0` is False for nan, so a finite non-positive term still gives "invalid";
+    -- otherwise any nan term makes `dist` nan.
+    let purD := purTs m / tot
+    let pyrD := pyrTs m / tot
+    let tvD := tvSum m / tot
+    let c1 := 2 * prodPurs / freqPurs
+    let c2 := 2 * prodPyrs / freqPyrs
+    let c3 := 2 * (freqPurs * freqPyrs - (prodPurs * freqPyrs / freqPurs) - (prodPyrs * freqPurs / freqPyrs))
+    let t1 := 1 - purD / c1 - tvD / (2 * freqPurs)
+    let t2 := 1 - pyrD / c2 - tvD / (2 * freqPyrs)
+    let t3 := 1 - tvD / (2 * freqPurs * freqPyrs)
+    if (prodPurs ≠ 0 ∧ t1 ≤ 0) ∨ (prodPyrs ≠ 0 ∧ t2 ≤ 0) ∨ ((freqPurs ≠ 0 ∧ freqPyrs ≠ 0) ∧ t3 ≤ 0) then .invalid
+    else if prodPurs = 0 ∨ prodPyrs = 0 ∨ freqPurs = 0 ∨ freqPyrs = 0 then .nan
+    else .tn93 tot p c1 c2 c3 t1 t2 t3
 
 /-! LogDet / paralinear -/
 def det3 (a b c d e f g h i : Rat) : Rat := a * (e * i - f * h) - b * (d * i - f * g) + c * (d * h - e * g)
